@@ -369,6 +369,31 @@ T = {
  'C18-10': ('C18', PROBER, 'generatePayload fills the payload from rand.Uint64 words and mirrors each word into the hash; the last partial word is hashed in full', 'payload_size not divisible by 8: the hash covers bytes that are not in the payload'),
  'C19-9': ('C19', CSUM, 'prependChecksum builds the output in place when the payload has ≥ 6 spare bytes; the CRC is computed after the shifting copy', 'wrapped encoding with cap−len ≥ 6 (dynamicpb, appending encoders): checksum of the shifted bytes'),
  'C19-10': ('C19', CSUM, 'Unmarshal decodes through a proto.Buffer (UnmarshalMerge semantics) after reading the checksum field', 'decoding into a non-empty (reused) message: merged instead of replaced'),
+ # ---- wave 8 (as wave 6, for the same twelve properties, after the rules of waves 6-7)
+ 'C01-13': ('C01', GRPCGCP, 'swap extracted to completeRefreshLocked; the regrouped deletes unregister refreshingScRefs[oldSc] instead of the replacement', 'K bound to a refreshed channel that later breaks: its non-READY reports are swallowed, calls for K go to the broken channel'),
+ 'C01-14': ('C01', GRPCGCP, 'getReadySubConnRef with named results (ref, ok): `state, ok := gb.scStates[sc]` reuses the ok that meant "key is bound"', 'K bound to a channel that reported SHUTDOWN (no state entry), fallback off: "not bound" instead of "bound, not ready": placed elsewhere'),
+ 'C02-13': ('C02', GRPCGCP, 'placeOn(scRef) does the increment for every placing arm except the default arm (pool at MaxSize, all at the watermark)', 'one more unkeyed call on a saturated pool at MaxSize: not counted, its completion still decrements'),
+ 'C02-14': ('C02', GRPCGCP, 'Done closure split into a base callback and decorators; thenUnbind returns on info.Err != nil BEFORE calling the base callback', 'an UNBIND call that fails: no decrement, no unresponsive detection'),
+ 'C03-13': ('C03', GRPCGCP, 'named results + shared tail: in the "pool has capacity" case only err is set, scRef still holds the least busy ref and is incremented', 'a saturated burst with waiting picks: phantom streams stay after the burst, later growth without saturation'),
+ 'C03-14': ('C03', GRPCGCP, 'newSubConn returns poolFull evaluated AFTER its own creation; the picker places the call when "full"', 'a saturated pick at pool size maxSize−1: the call that adds the last channel is placed instead of told to wait'),
+ 'C04-13': ('C04', GRPCGCP, 'promoteReplacement registers scRefs[sc] but drops delete(scRefs, oldSc); membership test switched to scRefs', 'a late non-SHUTDOWN report of a replaced connection: counted again, wrong aggregate published'),
+ 'C04-14': ('C04', GRPCGCP, 'body of UpdateSubConnState extracted with its Lock/defer Unlock; cc.UpdateState runs after the mutex is released', 'two concurrent reports: published in the wrong order, READY stays published over a TF pool'),
+ 'C06-13': ('C06', GRPCGCP, 'regeneratePicker reuses the previous picker via `np := *p` (copies its sync.Mutex)', 'a READY/non-READY flip while a pick on the current picker holds p.mu: the published copy is locked for ever'),
+ 'C06-14': ('C06', GRPCGCP, 'round-robin wait loop extracted; `sigChan := scRef.stateSignal` hoisted out of the loop', 'a non-READY→non-READY transition of the awaited channel: the closed channel makes the waiter spin on gb.mu'),
+ 'C07-13': ('C07', GRPCGCP, 'refresh life cycle split into beginRefresh/abortRefresh/endRefresh; deCalls is reset when the refresh is requested, not at the swap', 'deadline-exceeded completions while the replacement connects: carried over, the replacement is refreshed by its first one'),
+ 'C07-14': ('C07', GRPCGCP, 'unresponsiveWindow via backoffWindow/addSaturated: the loop adds base instead of doubling', 'k ≥ 2 consecutive refreshes: window = detection × (k+1) instead of × 2^k'),
+ 'C08-13': ('C08', GRPCGCP, 'UpdateSubConnState split into recordSubConnState and publishPicker, each taking gb.mu itself: one event, two critical sections', 'a keyed pick between them right after the least busy READY channel left READY: a non-READY stand-in is recorded after its purge'),
+ 'C08-14': ('C08', GRPCGCP, 'getAndIncrementSubConnRef switch routes by key only for cmd == BOUND', 'an UNBIND call for a key in fallback: does not reuse the stand-in (or is refused on a saturated pool)'),
+ 'C09-13': ('C09', GRPCGCP, 'rekeySubConn does delete(refreshingScRefs, from) instead of to', 'a refreshed channel later loses READY: reports swallowed, a round-robin BIND call is handed the non-READY channel at once'),
+ 'C09-14': ('C09', GRPCGCP, 'cursor advanced with atomic.AddUint32, index computed from a separate atomic.LoadUint32', 'two concurrent BIND picks interleaving Add, Add, Load, Load: same slot twice, one skipped'),
+ 'C14-13': ('C14', ME, 'scheduleSwitch/pendingSwitch: the timer compares the current priority with the target priority captured when the switch was scheduled', 'a re-prioritising SetEndpoints while a delayed switch is pending: current moves from an available endpoint to a lower one'),
+ 'C14-14': ('C14', ME, 'maybeUpdateCurrent via pickEndpoints(bound); "no bound" written as len(me.endpoints)', 'a list naming an endpoint twice: available endpoints at positions ≥ number of distinct names are never chosen'),
+ 'C15-13': ('C15', GRPCGCP, 'newMonitoredConn(conn, gme): mc.endpoint taken from conn.Target() instead of the endpoint name', 'a DialFunc that rewrites the target: notifications go under an id no MultiEndpoint knows, routing never follows connectivity'),
+ 'C15-14': ('C15', GRPCGCP, 'addMissingPools with named results: `conn, err := gme.dialFunc(…)` in the loop shadows err; break; return added, err', 'a dial that fails during an update: swallowed, the update is applied with an endpoint that has no pool'),
+ 'C17-13': ('C17', GRPCGCP, 'effectiveConfig: the fresh ChannelPoolConfig that receives the defaults is returned but never stored into the cloned config', 'a config without a channelPool section: effective minSize/maxSize/watermark stay 0'),
+ 'C17-14': ('C17', GRPCGCP, "makeOpts split: the grpc-gcp options are appended first, the caller's options last", "caller options containing WithDefaultServiceConfig: they win over this object's configuration"),
+ 'C20-13': ('C20', GRPCGCP, 'config assertion moved to gcpConfigOf and evaluated on every update, after gb.addrs is stored and before the push loops', 'a later update with a foreign BalancerConfig and a new list: rejected after storing, connections keep the old list'),
+ 'C20-14': ('C20', GRPCGCP, 'push loops merged onto resetSubConn(ref, sc): sc.UpdateAddresses but ref.subConn.Connect()', 'refresh in flight whose replacement went idle: the resolver update never asks it to connect'),
 }
 
 ENV = dict(os.environ, GOFLAGS='-mod=mod', GOPROXY='off', GOSUMDB='off', GOTOOLCHAIN='local')
